@@ -356,6 +356,9 @@ def run_native(name, label, args=None, timeout=900):
     mo = re.search(r'checked (\d+)', out2)
     if mo:
         res['checks'] = int(mo.group(1))
+    # a stand-in may name individual deviations (`DEVIATION: <obligation> <what>`) and carry on: each is matched against the known findings on its own,
+    # so that a listed one is reported as such and any other one is a violation
+    res['deviations'] = [(mo2.group(1), mo2.group(2)) for mo2 in re.finditer(r'^DEVIATION: (\S+) (.*)$', out2, re.M)]
     if rc2 == 0:
         return res
     if rc2 == 1 and 'VIOLATED' in out2:
